@@ -5,6 +5,7 @@ import (
 	"fmt"
 	"math/big"
 	"strings"
+	"sync"
 	"testing"
 
 	"github.com/ava-labs/hypersdk/consts"
@@ -146,6 +147,29 @@ func TestC34(t *testing.T) {
 			r.Finish(0)
 			return
 		}
+	}
+	// the very first conversions of the process come from many goroutines at once (a wallet
+	// or CLI formats balances concurrently): every answer is judged like any sequential one
+	{
+		const G = 16
+		start := make(chan struct{})
+		var wg sync.WaitGroup
+		for g := 0; g < G; g++ {
+			wg.Add(1)
+			go func(g int) {
+				defer wg.Done()
+				grng := r.Rand(fmt.Sprintf("first-use-%d", g))
+				<-start
+				for i := 0; i < 200; i++ {
+					b := grng.Uint64() >> uint(grng.IntN(64))
+					c34Format(r, b)
+					c34Parse(r, fmt.Sprintf("%d.%09d", b%1000, grng.IntN(1_000_000_000)), "concurrent-first-use")
+				}
+			}(g)
+		}
+		close(start)
+		wg.Wait()
+		r.Count("concurrent_first_use_conversions", G*400)
 	}
 	rng := r.Rand("cases")
 
